@@ -1,6 +1,6 @@
 """C12 — A rejected operation leaves its target unchanged."""
 import json
-import vlib, heapcorr
+import vlib, heapcorr, chains
 from props import heapcommon as hc
 
 
@@ -55,6 +55,25 @@ def run(tier, seed):
                          {'kind': 'api', 'history': h, 'step': i})
                 break
             chk.nontrivial.add((r['op'][0], r['exc'], r['enc']))
+    # a refused write at the end of a chain of children that do not exist yet (the target is reached by traversal)
+    from props.c11 import chain_cases
+    from props.c01 import VERSIONS, excluded
+    ex = excluded()
+    vs0 = [v for v in VERSIONS if v != '2.1']
+    ccases = []
+    for v in (vs0 if tier != 'quick' else sorted(chk.rng.sample(vs0, 3))):
+        ccases += [dict(c, refuse=True, rounds=1, reads=1) for c in chain_cases(chk.rng, v, 30 if tier != 'quick' else 8, 8 if tier != 'quick' else 5, ex)
+                   if (c['component'] or '').count('_') <= 1]
+    for c, o in zip(ccases, vlib.pmap(chains.chain_job, ccases)):
+        chk.evals += 1
+        if o.startswith('refused-write'):
+            chk.fail(None, {'clause': 'a refused write through a chain of not-yet-existing children leaves the message unchanged', 'result': o[:700], **c},
+                     {'kind': 'chain', 'case': c})
+        elif o.startswith('HARNESS'):
+            chk.broken.append({'kind': 'harness', 'log': o[:500], 'case': c})
+        else:
+            chk.nontrivial.add(('chain-refused', c['version'], c['segment'], c['field'], c['component'], c['sub']))
+    chk.dist['refused_writes_through_chains'] = len(ccases)
     chk.exhaustive = False
     chk.rule = ('every op of every history that raises: low level - the dump of all 19 elements (child lists, parent, traversal parent, traversal index) '
                 'is compared before / after; API level - encoding and children of the root before / after, and no helper element left pointing at a parent that does '
@@ -70,6 +89,10 @@ def replay(path):
     d = json.load(open(path))
     print(json.dumps(d['what'], indent=1)[:3000])
     r = d['replay']
+    if r.get('kind') == 'chain':
+        o = chains.chain_job(r['case'])
+        print('replayed:', o)
+        return 1 if o.startswith('refused-write') else 0
     if r.get('kind') == 'api':
         recs = hc.replay_history(r['history'], r['step'])
         print('replayed:', json.dumps(recs[-1])[:600])
